@@ -1,0 +1,17 @@
+//go:build verif
+
+package keeper
+
+// Contracts for x/registry/keeper, read by /verif/bin/govc. Comment-only: compiled
+// only with -tags verif and adds no code.
+
+//@ func (k msgServer).UpdateDataSpec(goCtx, req) (resp, err)
+//@ requires [msg_present] req != nil
+//@ modifies G_*
+//@ ensures [only_governance_authority] err == nil ==> old(req.Authority) == k.Keeper.authority
+//@ ensures [rejected_request_changes_nothing] old(req.Authority) != k.Keeper.authority ==> err != nil && nothing_written()
+
+//@ func (k msgServer).RegisterSpec(goCtx, msg) (resp, err)
+//@ requires [msg_present] msg != nil
+//@ modifies G_*
+//@ ensures [registered_spec_cannot_be_replaced] old(has(registry.SpecRegistry, lower(msg.QueryType))) ==> err != nil && nothing_written()
